@@ -79,6 +79,9 @@ func solverCmd(name, file string, timeout time.Duration, seed int) *exec.Cmd {
 	panic("unknown solver " + name)
 }
 
+// raceSem bounds the number of obligations raced on three solvers at once (keeps timings stable under load)
+var raceSem = make(chan struct{}, 5)
+
 type solveOut struct {
 	solver string
 	status string
@@ -114,7 +117,9 @@ func (e *Engine) solveOne(o *Obligation, axioms []axFact, cfg *SolverCfg, idx in
 		}
 		c2 := *cfg
 		c2.Phase1 = false
+		raceSem <- struct{}{}
 		e.solveOne(o, axioms, &c2, idx)
+		<-raceSem
 		return
 	}
 	names := cfg.Names
